@@ -2566,8 +2566,16 @@ fn compare_int_float(i: i64, f: f64) -> Ordering {
     if f.is_nan() {
         return Ordering::Less;
     }
-    let i_as_f = i as f64;
-    i_as_f.partial_cmp(&f).unwrap_or(Ordering::Equal)
+    // `i as f64` rounds above 2^53, so compare against the truncated float instead
+    if f >= 9_223_372_036_854_775_808.0 {
+        return Ordering::Less;
+    }
+    if f < -9_223_372_036_854_775_808.0 {
+        return Ordering::Greater;
+    }
+    let truncated = f.trunc();
+    i.cmp(&(truncated as i64))
+        .then_with(|| truncated.partial_cmp(&f).unwrap_or(Ordering::Equal))
 }
 
 fn compare_float_int(f: f64, i: i64) -> Ordering {
@@ -2578,36 +2586,95 @@ fn compare_bigint_float(big: &BigInt, f: f64) -> Ordering {
     if f.is_nan() {
         return Ordering::Less;
     }
-    let big_as_f = bigint_to_f64(big);
-    big_as_f.partial_cmp(&f).unwrap_or(Ordering::Equal)
+    let big_sign = if big.digits.iter().all(|&d| d == 0) {
+        0
+    } else if big.sign.is_negative() {
+        -1
+    } else {
+        1
+    };
+    let f_sign = if f == 0.0 {
+        0
+    } else if f < 0.0 {
+        -1
+    } else {
+        1
+    };
+    if big_sign != f_sign || big_sign == 0 {
+        return big_sign.cmp(&f_sign);
+    }
+    let magnitude = compare_magnitude_float(&big.digits, f.abs());
+    if big_sign < 0 {
+        magnitude.reverse()
+    } else {
+        magnitude
+    }
+}
+
+/// Compares a little-endian base-256 magnitude with a positive float without rounding.
+pub(crate) fn compare_magnitude_float(digits: &[u8], f: f64) -> Ordering {
+    if f.is_infinite() {
+        return Ordering::Less;
+    }
+    let significant = digits.iter().rposition(|&d| d != 0).map_or(0, |pos| pos + 1);
+    let digits = &digits[..significant];
+
+    // f == mantissa * 2^exponent with an integral mantissa
+    let bits = f.to_bits();
+    let biased_exponent = ((bits >> 52) & 0x7ff) as i32;
+    let fraction = bits & ((1u64 << 52) - 1);
+    let (mantissa, exponent) = if biased_exponent == 0 {
+        (fraction, -1074)
+    } else {
+        (fraction | (1u64 << 52), biased_exponent - 1075)
+    };
+
+    if exponent < 0 {
+        let shift = exponent.unsigned_abs();
+        let (int_part, has_fraction) = if shift >= 64 {
+            (0u64, mantissa != 0)
+        } else {
+            (mantissa >> shift, mantissa & ((1u64 << shift) - 1) != 0)
+        };
+        if digits.len() > 8 {
+            return Ordering::Greater;
+        }
+        let mut value = 0u64;
+        for (i, &d) in digits.iter().enumerate() {
+            value |= (d as u64) << (i * 8);
+        }
+        return value.cmp(&int_part).then(if has_fraction {
+            Ordering::Less
+        } else {
+            Ordering::Equal
+        });
+    }
+
+    // f is the integer `mantissa << exponent`
+    let exponent = exponent as usize;
+    let shifted = (mantissa as u128) << (exponent % 8);
+    let low_zero_bytes = exponent / 8;
+    let float_len = low_zero_bytes + (128 - shifted.leading_zeros() as usize).div_ceil(8);
+    let float_digit = |i: usize| -> u8 {
+        if i < low_zero_bytes || i - low_zero_bytes >= 16 {
+            0
+        } else {
+            (shifted >> ((i - low_zero_bytes) * 8)) as u8
+        }
+    };
+    digits.len().cmp(&float_len).then_with(|| {
+        for i in (0..digits.len()).rev() {
+            match digits[i].cmp(&float_digit(i)) {
+                Ordering::Equal => continue,
+                other => return other,
+            }
+        }
+        Ordering::Equal
+    })
 }
 
 fn compare_float_bigint(f: f64, big: &BigInt) -> Ordering {
     compare_bigint_float(big, f).reverse()
-}
-
-fn bigint_to_f64(big: &BigInt) -> f64 {
-    let mut result = 0f64;
-    let mut scale = 1.0f64;
-
-    for &byte in big.digits.iter() {
-        let contribution = (byte as f64) * scale;
-        if contribution.is_infinite() || scale.is_infinite() {
-            return if big.sign.is_negative() {
-                f64::NEG_INFINITY
-            } else {
-                f64::INFINITY
-            };
-        }
-        result += contribution;
-        scale *= 256.0;
-    }
-
-    if big.sign.is_negative() {
-        -result
-    } else {
-        result
-    }
 }
 
 fn compare_term_lists(a: &[OwnedTerm], b: &[OwnedTerm]) -> Ordering {
